@@ -15,6 +15,7 @@ ReturnError ↦ check_key(sender): the Err(e) edge returns Err(Status(TooManyReq
 proceeds; inner.call occurs exactly once and only behind those edges; a missing sender is an internal
 error before anything else.
 One layer out: clones share the keyed limiter and clock, poll_ready only delegates, PeerId equality/hash are derived.
+Generated servers stack a per-method layer on those already installed (add_layer_for_* of the code generated from the current templates).
 """
 TRUSTED = ["governor's GCRA quota arithmetic and keyed state store", "governor NotUntil::wait_time_from is positive for a refused cell"]
 NOT_DECIDED = ["the numeric quota bound over time windows (governor)", "positivity of the wait hint", "concurrent arrival interleavings inside governor"]
@@ -156,3 +157,4 @@ def run(cx):
             check_fieldwise_clone(ob, prog, ty)
         check_poll_ready_delegates(ob, prog, "anemo_tower::rate_limit::RateLimit")
         check_peer_id_identity_derived(ob, prog)
+        check_generated_layer_stacking(ob, prog)          # (a per-method layer installed on a generated server stays installed)
